@@ -10,24 +10,208 @@ def _c19_case(c):
     return {"raw": c}
 
 
+# ---------------------------------------------------------------------------
+# A sample of the correspondence cases is re-evaluated INSIDE Coq with vm_compute and compared
+# with what the extracted OCaml runner printed (model.txt).  This cross-checks the extraction
+# and the OCaml driver (parsing, printing, annotation sorting), not the implementation.
+
+def _vm_str(h):
+    if h == "-":
+        return "(@nil N)"
+    return "[" + "; ".join(str(x) for x in bytes.fromhex(h)) + "]"
+
+
+def _vm_ann(t):
+    if t == "-":
+        return "(@nil kv)"
+    out = []
+    for kv in t.split(";"):
+        k, v = kv.split("=")
+        out.append("(%s, %s)" % (_vm_str(k), _vm_str(v)))
+    return "[" + "; ".join(out) + "]"
+
+
+def _vm_desc(t):
+    _, mt, dg, sz, ann, at, ex = t.split(":")
+    return "(mkDesc %s %s (%s)%%Z %s %s %s)" % (_vm_str(mt), _vm_str(dg), sz, _vm_ann(ann), _vm_str(at), _vm_str(ex))
+
+
+def _vm_odesc(t):
+    return "(@None desc)" if t == "N" else "(Some %s)" % _vm_desc(t)
+
+
+def _vm_list(t):
+    if t == "N":
+        return "(@None (list desc))"
+    ds = t.split(",")[1:]
+    return "(Some %s)" % ("(@nil desc)" if not ds else "[" + "; ".join(_vm_desc(d) for d in ds) + "]")
+
+
+def _vm_store(t):
+    es = t.split(",")[1:]
+    if not es:
+        return "(@nil entry)"
+    out = []
+    for e in es:
+        f = e.split(":")
+        out.append("(mkEntry %s %s (%s)%%Z [] %s)" % (_vm_str(f[0]), _vm_str(f[1]), f[2], "true" if len(f) > 3 else "false"))
+    return "[" + "; ".join(out) + "]"
+
+
+def _vm_events(t):
+    if t == "-":
+        return "(@nil vev)"
+    out = []
+    evs = []
+    for piece in t.split(";"):  # ';' also separates annotations inside an event
+        if piece.startswith(("X:", "PB:", "PM:")):
+            evs.append(piece)
+        else:
+            evs[-1] += ";" + piece
+    for e in evs:
+        f = e.split(":")
+        if f[0] == "X":
+            out.append("(VX %s %s (%s)%%Z)" % (_vm_str(f[1]), _vm_str(f[2]), f[3]))
+        elif f[0] == "PB":
+            out.append("(VPB %s %s (%s)%%Z %s)" % (_vm_str(f[1]), _vm_str(f[2]), f[3], _vm_ann(f[4])))
+        else:
+            out.append("(VPM %s %s %s)" % (_vm_str(f[1]), _vm_str(f[2]), _vm_ann(f[3])))
+    return "[" + "; ".join(out) + "]"
+
+
+_VM_PRELUDE = """From Oras Require Import Base.Prelude Base.Regex Generated.GC19 Model.Pack.
+Fixpoint vm_ltb (x y : str) : bool :=
+  match x, y with
+  | [], [] => false
+  | [], _ :: _ => true
+  | _ :: _, [] => false
+  | c :: x', d :: y' => (c <? d) || ((c =? d) && vm_ltb x' y')
+  end.
+Fixpoint vm_ins (p : kv) (l : list kv) : list kv :=
+  match l with
+  | [] => [p]
+  | q :: l' => if vm_ltb (fst q) (fst p) then q :: vm_ins p l' else p :: l
+  end.
+Definition vm_sort (l : list kv) : list kv := fold_right vm_ins [] l.
+Definition vm_desc (d : desc) : desc := mkDesc (d_mt d) (d_dg d) (d_sz d) (vm_sort (d_ann d)) (d_at d) (d_extra d).
+Inductive vev := VX (mt dg : str) (sz : Z) | VPB (mt dg : str) (sz : Z) (ann : list kv) | VPM (mt at_ : str) (ann : list kv).
+Definition vm_ev (e : event) : vev :=
+  match e with
+  | EvExists d => VX (d_mt d) (d_dg d) (d_sz d)
+  | EvPush RBlob d _ => VPB (d_mt d) (d_dg d) (d_sz d) (vm_sort (d_ann d))
+  | EvPush RManifest d _ => VPM (d_mt d) (d_at d) (vm_sort (d_ann d))
+  end.
+Inductive vres :=
+| VErr (e : err)
+| VOk (mt at_ : str) (ann : list kv) (k : mkind) (cfg : option desc) (layers : option (list desc))
+      (subj : option desc) (mat : str) (mann : list kv).
+Definition vm_view (p : state * result) : vres * list vev :=
+  (match snd p with
+   | Err e => VErr e
+   | Ok d m => VOk (d_mt d) (d_at d) (vm_sort (d_ann d)) (m_kind m) (option_map vm_desc (m_config m))
+                   (option_map (map vm_desc) (m_layers m)) (option_map vm_desc (m_subject m)) (m_at m)
+                   (vm_sort (m_ann m))
+   end, map vm_ev (s_events (fst p))).
+Definition vm_marshal (_ : manifest) : str := [].
+Definition vm_h (s : str) : str := if str_eqb s empty_json then empty_json_digest else [63].
+Definition vm_now : str := [60; 78; 79; 87; 62].
+"""
+
+
+def _vm_goal(case, out):
+    p = case.split(" ")
+    o = out.split(" ")
+    if p[0] == "M":
+        return "valid_media_type %s = %s" % (_vm_str(p[1]), "true" if o[0] == "1" else "false")
+    if p[0] == "T":
+        return "rfc3339_ok %s = %s" % (_vm_str(p[1]), "true" if o[0] == "1" else "false")
+    if p[0] != "K":
+        return None
+    fn = {"v10": "FV10", "v11": "FV11", "vbad": "FBadVersion", "rc2": "FRC2", "art": "FArtifact"}[p[1]]
+    key = {"0": "KFull", "1": "KDigest", "2": "KNamespace", "3": "KFile"}[p[3]]
+    fa = "(@None nat)" if p[4] == "-" else "(Some %s%%nat)" % p[4]
+    call = ("(pack vm_marshal vm_h %s (mkTcfg %s %s) %s (init_state %s) %s (mkOpts %s %s %s %s %s) vm_now)"
+            % (fn, "true" if p[2] == "1" else "false", key, fa, _vm_store(p[11]), _vm_str(p[5]), _vm_odesc(p[6]),
+               _vm_list(p[7]), _vm_ann(p[8]), _vm_odesc(p[9]), _vm_ann(p[10])))
+    if o[0] == "ERR":
+        e = {"unsupported": "EUnsupported", "invalid-media-type": "EInvalidMediaType", "missing-artifact-type": "EMissingArtifactType",
+             "invalid-datetime": "EInvalidDateTime", "injected": "EInjected"}[o[1]]
+        return "vm_view %s = (VErr %s, %s)" % (call, e, _vm_events(o[3]))
+    mt, at, ann = o[1].split(":")
+    f = dict(t.split("=", 1) for t in o[2:8])
+    res = "(VOk %s %s %s %s %s %s %s %s %s)" % (_vm_str(mt), _vm_str(at), _vm_ann(ann), {"I": "KImage", "A": "KArtifact"}[f["kind"]],
+                                             _vm_odesc(f["cfg"]), _vm_list(f["layers"]), _vm_odesc(f["subj"]), _vm_str(f["at"]),
+                                             _vm_ann(f["ann"]))
+    return "vm_view %s = (%s, %s)" % (call, res, _vm_events(o[9]))
+
+
+def _c19_vm_sample(d, tier, coq, build):
+    import os, subprocess, collections
+    quota = {"K": 250, "M": 120, "T": 120} if tier == "thorough" else {"K": 30, "M": 15, "T": 15}
+    outs = {}
+    with open(os.path.join(d, "model.txt")) as f:
+        for l in f:
+            i, _, o = l.rstrip("\n").partition(" ")
+            outs[i] = o
+    total = collections.Counter()
+    with open(os.path.join(d, "cases.txt")) as f:
+        for l in f:
+            c = l.split(" ", 2)
+            if len(c) > 1 and len(l) <= 12000:
+                total[c[1]] += 1
+    got, stride, goals = collections.Counter(), collections.Counter(), []
+    with open(os.path.join(d, "cases.txt")) as f:
+        for l in f:
+            i, _, c = l.rstrip("\n").partition(" ")
+            k = c.split(" ", 1)[0]
+            if k not in quota or got[k] >= quota[k] or len(l) > 12000 or i not in outs:
+                continue
+            stride[k] += 1
+            if (stride[k] - 1) % max(1, total[k] // quota[k]) != 0:
+                continue
+            g = _vm_goal(c, outs[i])
+            if g:
+                got[k] += 1
+                goals.append((i, g))
+    vdir = os.path.join(build, "vm")
+    os.makedirs(vdir, exist_ok=True)
+    vf = os.path.join(vdir, "C19_cases.v")
+    with open(vf, "w") as f:
+        f.write(_VM_PRELUDE)
+        for i, g in goals:
+            f.write("\n(* %s *)\nGoal %s.\nProof. vm_compute. reflexivity. Qed.\n" % (i, g))
+    p = subprocess.run(["coqc", "-R", coq, "Oras", "-w", "-notation-overridden", vf], cwd=vdir, timeout=1500,
+                       stdout=subprocess.PIPE, stderr=subprocess.STDOUT, text=True)
+    with open(os.path.join(d, "vm_sample.txt"), "w") as f:
+        f.write("%d goals %s rc=%d\n%s" % (len(goals), dict(got), p.returncode, p.stdout[-3000:]))
+    if p.returncode != 0:
+        return ["vm_compute re-evaluation of %d sampled cases inside Coq disagrees with the extracted runner (or does not type-check): %s"
+                % (len(goals), p.stdout[-1200:])]
+    if len(goals) < sum(quota.values()) // 2:
+        return ["vm_compute sample too small: %d goals" % len(goals)]
+    return []
+
+
 CONFIG = {
     "properties_file": "Properties/C19.v",
-    "proof_files": ["Base/Prelude.v", "Base/Regex.v", "Proofs/Pack.v", "Proofs/PackTime.v"],
+    "proof_files": ["Base/Prelude.v", "Base/Regex.v", "Base/StrCheck.v", "Proofs/Pack.v", "Proofs/PackTime.v"],
     "model_files": ["Generated/GC19.v", "Model/Pack.v"],
     "extract": "XC19.v",
     "ml_main": "c19_main.ml",
     "harness": "c19",
     "case_to_replay": _c19_case,
+    "post_model": _c19_vm_sample,
     "assumptions": [
         "json.Marshal of the manifest document is a parameter (marshal : manifest -> str); the model's manifest record is the JSON-level document after omitempty; the harness re-parses the stored bytes with encoding/json and compares the document field by field",
+        "C19_annotation_order_independent assumes marshal_perm: the marshalled bytes do not depend on the order in which a map's entries are listed (encoding/json sorts map keys); the harness checks it on every successful call (annotations re-inserted in reverse order into maps of another capacity; raw stored JSON walked for sorted annotation keys)",
         "the digest function is a parameter H with the single hypothesis H \"{}\" = sha256:44136f...; collision-freeness of H is an explicit premise of the clauses that conclude equality of stored bytes",
-        "the validation of a caller-supplied created value (time.Parse(time.RFC3339, _) followed by the explicit strict checks added by the fix of finding created-lenient) is modelled by the recogniser rfc3339_ok, proved equal to the RFC 3339 section 5.6 grammar with upper-case T/Z and no leap second; every disagreement with the real code (observed through PackManifest, go1.26.8 time package) is a correspondence failure; time.Now().UTC().Format(RFC3339) is the parameter `now` (the harness checks the generated value parses and lies within the call)",
+        "the validation of a caller-supplied created value is modelled as the code is written: time.Parse(time.RFC3339, _) = the lenient recogniser rfc3339_gen false (step-by-step mirror of time.parse for that layout), followed by the explicit strict checks of validateRFC3339, which the translator (kind strictchecks) re-reads from pack.go on every run into Generated/GC19.v; the combination is proved equal to the strict recogniser and to the RFC 3339 section 5.6 grammar with upper-case T/Z and no leap second; the lenient recogniser itself is tied to the real time.Parse of go1.26.8 only by the correspondence run (observed through PackManifest); time.Now().UTC().Format(RFC3339) is the parameter `now` (the harness checks the generated value parses and lies within the call)",
         "Go regexp semantics for the ASCII-only, fully anchored mediaTypeRegexp = Base/Regex.v Lang (proved equal to the derivative matcher)",
-        "the target is modelled as a content store keyed by digest (OCI layout), by media type+digest+size (memory, file-store fallback) or by digest within the manifest/blob namespace (registry), optionally implementing Exists, possibly pre-filled, with at most one injected failing storage operation; stores verify pushed content, which the model omits because every push of Pack is proved content-consistent (C19_store_stays_content_addressed)",
+        "the target is modelled as a content store keyed by digest (OCI layout), by media type+digest+size (memory), by digest within the manifest/blob namespace (registry) or as a file store (named files answer Exists by digest, unnamed content lives in the full-key fallback; descriptors Pack itself pushes carry no title annotation), optionally implementing Exists, possibly pre-filled, with at most one injected failing storage operation; stores verify pushed content, which the model omits because every push of Pack is proved content-consistent (C19_store_stays_content_addressed)",
         "constants of image-spec v1.1.1 (media types, annotation key, DescriptorEmptyJSON) are hand-written in the model and tied by the correspondence run; the oras-go constants and mediaTypeRegexp are regenerated from pack.go / internal/spec/artifact.go",
         "a config blob whose caller-chosen media type is itself a manifest media type (artifactType = application/vnd.oci.image.manifest.v1+json under v1.0 / Pack) is present in the target but is walked as a manifest by CopyGraph; the copy oracle does not judge such calls (caller inconsistency); the registry target is a minimal in-process distribution endpoint (no manifest validation, referrers API reported as supported)",
     ],
-    "level_text": "Coq theorems for all inputs: mediaTypeRegexp (re-translated from pack.go on every run) = RFC 6838 restricted-name/restricted-name; every run of the four packers over any target (key discipline, Exists or not, any prior content, any single storage fault) has one of five outcomes; rejections (invalid media type, subject under v1.0, missing artifact type, unknown version) leave the state untouched; the created validation accepts exactly the RFC 3339 date-times with upper-case T/Z and no leap second, so a created value that is not RFC 3339 gives an error with no manifest push and only the blob {} added (the pre-fix validation, time.Parse alone, is refuted by a witness); on success the manifest equals the requested document with the documented placeholders and a parsing created annotation, the descriptor is digest/size/media type of the marshalled bytes and is stored, every invented blob is stored with content {}, every successor is caller-supplied or stored, content-addressed stores stay so, and a fixed created annotation makes descriptor and manifest independent of target, clock and faults",
+    "level_text": "Coq theorems for all inputs: mediaTypeRegexp (re-translated from pack.go on every run) = RFC 6838 restricted-name/restricted-name; every run of the four packers over any target (key discipline, Exists or not, any prior content, any single storage fault) has one of five outcomes; rejections (invalid media type, subject under v1.0, missing artifact type, unknown version) leave the state untouched; the created validation accepts exactly the RFC 3339 date-times with upper-case T/Z and no leap second, so a created value that is not RFC 3339 gives an error with no manifest push and only the blob {} added (the pre-fix validation, time.Parse alone, is refuted by a witness); on success the manifest equals the requested document with the documented placeholders and a parsing created annotation, the descriptor is digest/size/media type of the marshalled bytes and is stored, every invented blob is stored with content {}, every successor is caller-supplied or stored, content-addressed stores stay so, a fixed created annotation makes descriptor and manifest independent of target, clock and faults, and (json.Marshal sorting map keys) of the order in which annotations are listed",
     "level_note": "json.Marshal and the digest are parameters (H \"{}\" fixed; collision-freeness an explicit premise where bytes are compared); the created validation is modelled by a recogniser (proved = RFC 3339 subset) validated against the real code on every run; image-spec constants hand-written; targets: memory, OCI layout, file store, remote.Repository over an in-process distribution endpoint; calls that type the invented config as a manifest are not judged by the copy oracle",
     "technique": "machine-checked proof in Coq + translator-regenerated definitions + model/implementation correspondence",
     "explanation": "theorems over all inputs, targets, prior contents and single storage faults about the model of pack.go whose regex/constants are regenerated from the source; differential run of model vs PackManifest/Pack over recording memory/OCI/file targets, exhaustive small-alphabet + boundary + mutated media types and timestamps against validateMediaType (through PackManifest) and time.Parse; independent oracle: RFC 6838 recogniser, stored bytes re-fetched, re-hashed and re-parsed against the generator's ground truth, invented blobs fetched, CopyGraph into an empty store, repeat calls for determinism, no push on rejection",
